@@ -53,6 +53,11 @@ def aromatic_chords(nmax, kmax):
     return out
 
 
+def misc_chars():
+    from mc.oracles.misc import EDIT_CHARS
+    return EDIT_CHARS
+
+
 @functools.lru_cache(maxsize=None)
 def families(tier):
     D = 1200
@@ -83,10 +88,10 @@ def families(tier):
     fams.append(("self-ring", [(s, s) for s in ("C11", "c11", "C1.C1", "C%11%11", "C12.C12", "CC11", "C1C1", "C11C",
                                                  "C=1=1", "[C@]11", "C1(C)1", "F:F", "c:[cn]", "C:C", "[Fe]:[Fe]", "c:F",
                                                  "C1:C:C:C:C:C1", "O:O", "[H]:[H]", "Cl:Cl", "B:B", "[Si]:[Si]")]))
-    # edit-distance-1 neighbourhood of valid SMILES: every printable ASCII character inserted at, or replacing, every
+    # edit-distance-1 neighbourhood of valid SMILES: every ASCII character (and 18 kinds of non-ASCII character) inserted at, or replacing, every
     # position of a seed, and every single deletion
     seeds = ["c1ccc[nH]c1", "C[C@@H](N)C(=O)O", "[13CH3+].[O-]", "C/C=C\\C", "C%10CC%10", "c1cc2ccccc2n1", "N#Cc1ccccc1", "C1=CC=1"]
-    chars = [chr(c) for c in range(32, 127)]
+    chars = misc_chars()
     for seed in seeds:
         mem = []
         for i in range(len(seed) + 1):
